@@ -598,10 +598,12 @@ class ReverseWeighting(WeightingModel):
             return 0 - self.subscorer.score(matcher)
 
         def max_quality(self):
-            return 0 - self.subscorer.max_quality()
+            # No upper bound of the reversed scores is known (see
+            # supports_block_quality); matcher.replace() still asks for one
+            return float("inf")
 
         def block_quality(self, matcher):
-            return 0 - self.subscorer.block_quality(matcher)
+            return float("inf")
 
 
 #class PositionWeighting(WeightingModel):
